@@ -227,11 +227,18 @@ def _run(rec, sim, case, M, L, binary, decl, path, srv, V):
             h.open_ticket.status,))
         return
     n0 = len(sim.events)
-    ws.send(frame)
-    try:
+    if (L + 2 * M) % 3 == 0 and path in ('ws-first', 'ws-steady'):
+        # the peer drains slowly just then: whatever the server writes in
+        # answer to the frame (a Close frame, say) takes a while to go out
+        rec.count('frames_while_the_peer_drains_slowly')
+        ws.stall(0.5)
+        ws.send(frame)
         sim.quiesce()
-    except Exception:
-        raise
+        sim.advance(1.0)
+        sim.quiesce()
+    else:
+        ws.send(frame)
+        sim.quiesce()
     rec.count('frame_limit')
     rec.key(key)
     msgs = [e for e in sim.events[n0:] if e['ev'] == 'message']
